@@ -54,6 +54,8 @@ def form_of(case):
         return parts[0]
     if fam == 'block-skel':
         return 'skel-' + parts[0]
+    if fam in ('block1', 'block2', 'block2-colon'):
+        return 'block'
     return fam
 
 
@@ -390,8 +392,8 @@ def run_stream(ctx, fams, budget):
                 else:
                     nrun += 1
                 for sig, lv, dbg, v in signatures(c, r):
-                    d = {'suite': name, 'class': c['cls'], 'src': c['src'], 'level': lv,
-                         'debug': dbg, 'verdict': v}
+                    d = {'suite': name, 'fam': c['fam'], 'class': c['cls'], 'src': c['src'],
+                         'level': lv, 'debug': dbg, 'verdict': v}
                     st = ctx.report(sig, d, True)
                     if st == 'violation':
                         first.setdefault(sig, c)
@@ -486,6 +488,11 @@ def main(tier, seed):
             if v['signature'] == sig:
                 v['detail']['shrunk_src'] = small
                 break
+    seen = {}
+    for v in ctx.violations:
+        seen[v['signature']] = seen.get(v['signature'], 0) + 1
+    for sig, n in sorted(seen.items()):
+        print(f'  unlisted failure class: {sig}  x{n}')
     return ctx.finish(
         'Theorems cover the two arity-assuming parse actions and the diagnostic position '
         'arithmetic only; everything else of C06 is a search with a direct oracle. Every internal '
